@@ -3,7 +3,8 @@
 From the frame's point of view an error is a cancellation that may arrive at any call. The simulator owns
 *when* and *how* it arrives: every call boundary of a generated program goes through a fault point, and for
 every program every dynamic fault point is enumerated with several fault kinds - an in-language raise of a
-base or user error class, runtime errors of the interpreter (IndexError, RuntimeError, PropertyError) and a
+base or user error class, runtime errors of the interpreter (IndexError, RuntimeError, PropertyError, stack overflow by
+unbounded recursion) and a
 native error produced by an injected file system fault (the n-th read of the simulated fs fails; there is no
 in-language condition at all in that kind). Collection schedule and address policy vary independently.
 Oracle: an executable model of the generated IR (a few lines of python: environments are dicts, try/catch is
@@ -16,7 +17,10 @@ import copy
 from . import core, schedules, workloads
 from .runner import Check
 
-KINDS = ["Error", "MyErr", "IndexError", "RuntimeError", "PropertyError", "IoError"]
+KINDS = ["Error", "MyErr", "IndexError", "RuntimeError", "PropertyError", "IoError", "StackOverflow"]
+# the class an injected error of each kind has (unbounded recursion is reported as a RuntimeError)
+CLASS_OF = {kind: kind for kind in KINDS}
+CLASS_OF["StackOverflow"] = "RuntimeError"
 FILTERS = ["Error", "Error", "Error", "MyErr", "IndexError", "RuntimeError", "PropertyError", "IoError"]
 DATA = "/sim/data.txt"
 
@@ -146,7 +150,9 @@ def render(funs, target, kind):
         "RuntimeError": "nil();",
         "PropertyError": "[1].nothing();",
         "IoError": "nil;",
+        "StackOverflow": "overflow(0);",
     }[kind]
+    lines.append("fn overflow(n) { overflow(n + 1) }")
     # every fault point performs one read of the simulated file system; in the IoError kind that read is
     # what fails (injected by the simulator), in the other kinds the fault point itself raises
     lines.append("fn fp() { CNT += 1; readFile('%s'); if CNT == TARGET { %s } }" % (DATA, action))
@@ -279,7 +285,7 @@ def model(funs, target, kind):
             elif s[0] in ("fp", "fpi"):
                 count[0] += 1
                 if count[0] == target:
-                    raise Raise(kind)
+                    raise Raise(CLASS_OF[kind])
             elif s[0] == "call":
                 out.append("R %s" % call(s[1], s[2]))
             elif s[0] == "print":
@@ -362,7 +368,7 @@ class C04(Check):
             "IndexError, RuntimeError, PropertyError, IoError), handlers that contain fault points themselves, exits by completion, "
             "break, continue and return through several tries, and callbacks run by native iterators (each/map/filter/reduce/all and "
             "the for protocol over a lazy map); for every program every dynamic fault point (up to 40) is enumerated with a seeded "
-            "subset of the 6 error kinds (all 6 in the thorough tier); kind IoError is a simulator-injected failure of the n-th "
+            "subset of the 7 error kinds (all 7 in the thorough tier); kind IoError is a simulator-injected failure of the n-th "
             "file system read; distinct = distinct (program, fault point, kind); non-trivial = the injected error was caught by a "
             "handler of the program or crossed at least one frame")
     assumptions = [
